@@ -66,17 +66,24 @@ func Fold(n *Node) *Node {
 		switch x.Kind {
 		case Int:
 			c := *x
+			if c.I == math.MinInt64 || len(c.Signs) >= 3 {
+				break // keep the operator node: the magnitude has no int64 spelling / enough signs
+			}
 			if n.Op == "-" {
 				c.I = -c.I
 			}
-			c.Raw = ""
+			// the literal is printed as its sign tokens followed by the magnitude (gaps between them are the layout's)
+			c.Signs = append([]string{n.Op}, x.Signs...)
 			return &c
 		case Float:
 			c := *x
+			if len(c.Signs) >= 3 {
+				break
+			}
 			if n.Op == "-" {
 				c.F = -c.F
 			}
-			c.Raw = ""
+			c.Signs = append([]string{n.Op}, x.Signs...)
 			return &c
 		}
 		n.X = x
